@@ -1680,3 +1680,138 @@ func genLong(t *rapid.T) (string, []byte, string) {
 	}
 	return fam, clip(d), how
 }
+
+// ---------------------------------------------------------------- MVT geometry command streams
+
+// mvtTileOf wraps one geometry integer stream (and optionally more features) in a structurally
+// valid tile: layer{name, feature{type, geometry}…, version 2}.
+func mvtTileOf(feats ...[]byte) []byte {
+	layer := &pbW{}
+	layer.bytesField(1, []byte("a"))
+	for _, f := range feats {
+		layer.bytesField(2, f)
+	}
+	layer.varintField(15, 2)
+	tile := &pbW{}
+	tile.bytesField(3, layer.buf)
+	return tile.buf
+}
+
+func mvtFeature(typ uint32, geom []uint32) []byte {
+	f := &pbW{}
+	f.varintField(3, uint64(typ))
+	f.bytesField(4, packed(geom))
+	return f.buf
+}
+
+// square-ish walk: the i-th vertex delta; every fourth step closes a square, so rings get
+// positive, negative and zero area depending on where they start and how long they are.
+func mvtDelta(i int) (uint32, uint32) {
+	dx := []int{4, 0, -4, 0}[i%4]
+	dy := []int{0, 4, 0, -4}[i%4]
+	return zz(dx), zz(dy)
+}
+
+var mvtCmdIDs = []uint32{1, 1, 1, 2, 2, 2, 7, 7, 0, 3, 4, 5, 6}
+var mvtCmdCounts = []uint32{0, 0, 1, 1, 1, 2, 2, 3, 4, 4096, 1 << 20, 1 << 28, 1<<29 - 1}
+
+// genMVTCommands composes a geometry integer stream at grammar level: command headers (ids 1, 2,
+// 7 and the unknown ids 0, 3..6) x counts {0, 1, 2, 3, 4, large, wrap-around} x parameter lists
+// that are complete, truncated or over-long, in any order; or a sequence of rings with 0..4
+// vertices each, closed / unclosed / closed twice / closed first, with moveTo x0 or xN.
+func genMVTCommands(t *rapid.T) ([]uint32, string) {
+	var g []uint32
+	step := 0
+	pt := func(zero bool) {
+		if zero {
+			g = append(g, 0, 0)
+			return
+		}
+		dx, dy := mvtDelta(step)
+		step++
+		g = append(g, dx, dy)
+	}
+	if rapid.Bool().Draw(t, "ringmode") {
+		nr := rapid.IntRange(1, 5).Draw(t, "nrings")
+		for r := 0; r < nr; r++ {
+			if rapid.IntRange(0, 9).Draw(t, "closefirst") == 0 {
+				g = append(g, 15)
+			}
+			mc := rapid.SampledFrom([]uint32{1, 1, 1, 1, 1, 0, 2, 3}).Draw(t, "movecount")
+			g = append(g, mc<<3|1)
+			for i := uint32(0); i < mc; i++ {
+				pt(false)
+			}
+			np := rapid.IntRange(0, 4).Draw(t, "linepts") // lineTo x0 makes a one-point ring
+			if np > 0 || rapid.IntRange(0, 2).Draw(t, "lineto0") != 0 {
+				g = append(g, uint32(np)<<3|2)
+				zero := rapid.IntRange(0, 5).Draw(t, "zeroarea") == 0
+				for i := 0; i < np; i++ {
+					pt(zero)
+				}
+			}
+			switch rapid.IntRange(0, 7).Draw(t, "term") {
+			case 0, 1, 2, 3:
+				g = append(g, 15)
+			case 4: // closed twice
+				g = append(g, 15, 15)
+			case 5: // another lineTo instead of closePath
+				g = append(g, uint32(rapid.IntRange(0, 1).Draw(t, "extraline"))<<3|2)
+				if g[len(g)-1]>>3 == 1 {
+					pt(false)
+				}
+			case 6: // unknown command id or closePath with another count
+				g = append(g, uint32(rapid.IntRange(0, 3).Draw(t, "ucount"))<<3|rapid.SampledFrom([]uint32{0, 3, 4, 5, 6, 7}).Draw(t, "uid"))
+			default: // nothing: the next ring's moveTo follows directly
+			}
+		}
+		return g, "cmd-rings"
+	}
+	nc := rapid.IntRange(0, 8).Draw(t, "ncmd")
+	for c := 0; c < nc; c++ {
+		id := mvtCmdIDs[intn(t, len(mvtCmdIDs), "id")]
+		cnt := mvtCmdCounts[intn(t, len(mvtCmdCounts), "cnt")]
+		if rapid.IntRange(0, 11).Draw(t, "wrapcnt") == 0 {
+			cnt = drawWrapCount(t) & (1<<29 - 1)
+		}
+		g = append(g, cnt<<3|id)
+		want := 0
+		if id != 7 {
+			want = int(cnt)
+			if want > 6 {
+				want = 6
+			}
+		}
+		switch rapid.IntRange(0, 5).Draw(t, "params") {
+		case 0: // truncated
+			want = intn(t, want+1, "cut")
+		case 1: // over-long
+			want += rapid.IntRange(1, 2).Draw(t, "extra")
+		}
+		for i := 0; i < want; i++ {
+			pt(rapid.IntRange(0, 7).Draw(t, "zero") == 0)
+		}
+		if rapid.IntRange(0, 9).Draw(t, "oddparam") == 0 {
+			g = append(g, 2) // half a point
+		}
+	}
+	return g, "cmd-free"
+}
+
+func genMVTCommandTile(t *rapid.T) ([]byte, string) {
+	nf := rapid.SampledFrom([]int{1, 1, 1, 2, 3}).Draw(t, "nfeat")
+	var feats [][]byte
+	how := ""
+	for i := 0; i < nf; i++ {
+		typ := rapid.SampledFrom([]uint32{3, 3, 3, 2, 2, 1, 0, 4}).Draw(t, "gtype")
+		g, h := genMVTCommands(t)
+		how = h
+		feats = append(feats, mvtFeature(typ, g))
+	}
+	d := mvtTileOf(feats...)
+	if rapid.IntRange(0, 3).Draw(t, "gz") == 0 {
+		d = gz(d)
+		how += ",gzip"
+	}
+	return clip(d), how
+}
